@@ -54,9 +54,9 @@ func canon(v interface{}) string {
 // ---------- normal forms (shared by the specification's answers and the observed ones) ----------
 
 type nSeries struct {
-	Labels [][2]string  `json:"labels"`
-	Points [][2]string  `json:"points"` // [timestamp ms, value]
-	N      int          `json:"n"`
+	Labels [][2]string `json:"labels"`
+	Points [][2]string `json:"points"` // [timestamp ms, value]
+	N      int         `json:"n"`
 	key    string
 }
 
@@ -578,6 +578,14 @@ func (x *world) runDB(group []*Case, seed int64) {
 	}
 	for _, i := range rng.Perm(len(c0.DB)) {
 		if err := x.push(rng, c, i+1, &c0.DB[i]); err != nil {
+			var rf *refused
+			if errors.As(err, &rf) { // behaviour of the real route, not of the harness
+				x.res.report(Mismatch{Signature: "ingest|refused", Kind: "unexplained", Endpoint: "/ingest", Cfg: c0.Cfg,
+					Msg: "a well-formed profile is refused: " + rf.msg, Abstract: map[string]interface{}{"cfg": c0.Cfg, "db": c0.DB, "profile": i + 1},
+					Case: c0, Concrete: c, Observed: rf.msg})
+				x.res.Skipped += len(group)
+				return
+			}
 			x.res.infra("push: %v", err)
 			return
 		}
@@ -608,11 +616,33 @@ func (x *world) runDB(group []*Case, seed int64) {
 	}
 }
 
+// dialectProbe (once per process, not a verdict): the same request written as canonical proto3 JSON (camelCase names, int64 as
+// strings), which is what a Connect client with the JSON codec sends; the controller parses application/json with encoding/json.
+func (x *world) dialectProbe(ep string, reqMsg proto.Message) {
+	body, err := protojson.Marshal(reqMsg)
+	if err != nil {
+		return
+	}
+	req := httptest.NewRequest("POST", base+ep, bytes.NewReader(body))
+	req.Header.Set("Content-Type", "application/json")
+	status, resp := -1, ""
+	func() {
+		defer func() { recover() }()
+		status, resp = x.w.Do(req)
+	}()
+	x.w.Bridge.Drain()
+	x.res.Aux["canonical_protojson_request"] = map[string]interface{}{"endpoint": ep, "body": string(body), "status": status, "answer": clip(resp, 300)}
+}
+
 func (x *world) runCase(rng *rand.Rand, c *Conc, cs *Case) {
 	ep, reqMsg, respMsg := x.buildRequest(rng, c, cs)
 	if reqMsg == nil {
 		x.res.infra("unknown endpoint %q", cs.Req.Ep)
 		return
+	}
+	if !x.probed && ep == "SelectSeries" && len(cs.DB) > 0 {
+		x.probed = true
+		x.dialectProbe(ep, reqMsg)
 	}
 	def, err := x.specAnswer(c, cs, cs.Def)
 	if err != nil {
@@ -710,6 +740,23 @@ func (x *world) runCase(rng *rand.Rand, c *Conc, cs *Case) {
 			for _, q := range qs {
 				x.res.FiredObserved[q]++
 				x.res.report(mk(ep+"|"+q, "quirk", q, fmt.Sprintf("%s answers what the code as written predicts (quirk %s of ProfSeries.tla), not what the definition demands", ep, q)))
+			}
+			return
+		}
+	}
+	// an error quirk that the code no longer has: the answer the remaining quirks predict
+	if o.Err == "" && len(coded.Err) > 0 && len(cs.Coded2) > 0 {
+		coded2, err := x.specAnswer(c, cs, cs.Coded2)
+		if err != nil {
+			x.res.infra("cannot read the second as-coded answer: %v", err)
+			return
+		}
+		if len(cs.Fired2) > 0 && sameAs(coded2) {
+			for _, q := range cs.Fired2 {
+				x.res.FiredObserved[q]++
+				m := mk(ep+"|"+q, "quirk", q, fmt.Sprintf("%s answers what the code as written predicts (quirk %s of ProfSeries.tla), not what the definition demands", ep, q))
+				m.Predicted = coded2
+				x.res.report(m)
 			}
 			return
 		}
